@@ -38,25 +38,38 @@ mkdir -p "$D"
 cp "$S/rebased.diff" "$D/patch.diff"
 # the kept demo finds the sandbox shim next to the seeded directories instead of /tmp/seedkit
 sed "s#'/tmp/seedkit'#__import__('os').path.join(__import__('os').path.dirname(__import__('os').path.abspath(__file__)), '..')#" "$SRC/demo.py" > "$D/demo.py"
-for C in $CHECKS; do cp "$S/res/$C.log" "$D/check_$C.log"; done
-/venv/bin/python - "$SRC/meta.json" "$D/meta.json" "$VERDICTS" "$RC_CLEAN" "$RC_MUT" <<'PY'
-import json, sys, datetime
-src, dst, verdicts, rc_clean, rc_mut = sys.argv[1:6]
+/venv/bin/python - "$SRC/meta.json" "$D/meta.json" "$VERDICTS" "$RC_CLEAN" "$RC_MUT" "$D" "$S/res" <<'PY'
+import json, os, sys, datetime
+src, dst, verdicts, rc_clean, rc_mut, D, RES = sys.argv[1:8]
 try:
     m = json.load(open(src))
 except Exception:
     m = {}
-# keep the verdict of the FIRST run against the registered check (before any strengthening)
+
+
+def no_input(path):
+    try:
+        return 'no-failing-input-found' in open(path).read()
+    except Exception:
+        return False
+# keep the verdict of the FIRST run against the registered check (before any strengthening); the old logs are still in D
 try:
     prev = json.load(open(dst))
     m['first_verdict'] = prev.get('first_verdict') or prev.get('confirmed', {}).get('checks_run')
+    if 'first_no_failing_input' in prev:
+        m['first_no_failing_input'] = prev['first_no_failing_input']
+    elif not prev.get('first_verdict'):
+        m['first_no_failing_input'] = [c.split(':rc=')[0] for c in prev.get('confirmed', {}).get('checks_run', [])
+                                       if no_input(os.path.join(D, 'check_' + c.split(':rc=')[0] + '.log'))]
 except Exception:
     pass
+nfi = [c.split(':rc=')[0] for c in verdicts.split() if no_input(os.path.join(RES, c.split(':rc=')[0] + '.log'))]
 m['confirmed'] = {
     'demo_rc_clean_tree': int(rc_clean), 'demo_rc_with_change': int(rc_mut),
     'baseline_609_with_change': 'all pass (tools/baseline.py, fast mode)',
-    'checks_run': verdicts.split(), 'how': 'tools/ingest_seed.sh: scratch copy of /repo + isolated copy of /verif, HD_REPO pointing at the changed copy',
+    'checks_run': verdicts.split(), 'no_failing_input': nfi, 'how': 'tools/ingest_seed.sh: scratch copy of /repo + isolated copy of /verif, HD_REPO pointing at the changed copy',
 }
 json.dump(m, open(dst, 'w'), indent=1)
 PY
+for C in $CHECKS; do cp "$S/res/$C.log" "$D/check_$C.log"; done
 echo "kept as $D"
